@@ -20,6 +20,11 @@ CORPUS = [
     ('fn main() { let l = [1, 2]  let t = #(l, "s")  t }\n', 't =', '#(List(Int), String)'),
     ('type T { C(Int, a: String, b: Float) }\nfn f(t: T) { case t { C(p, q, b: r) -> #(p, q, r) } }\n', 'q,', 'String'),
     ('type T { C(Int, a: String, b: Float) }\nfn f(t: T) { case t { C(p, b: r, a: q) -> #(p, q, r) } }\n', 'r,', 'Float'),
+    # mutual recursion where one link is a function REFERENCE (bound by let, passed as an argument), not a direct call
+    ('fn ping(n: Int) { let h = pong  h(n) }\nfn pong(n: Int) { ping(n) + 1 }\n', 'h =', 'fn(Int) -> Int'),
+    ('fn ping(n: Int) { let h = pong  h(n) }\nfn pong(n: Int) { ping(n) + 1 }\n', 'pong(n:', 'fn pong(Int) -> Int'),
+    ('fn apply(f, x) { f(x) }\nfn even(n: Int) { case n { 0 -> True  _ -> apply(odd, n - 1) } }\nfn odd(n: Int) { case n { 0 -> False  _ -> even(n - 1) } }\n', 'odd(n:', 'fn odd(Int) -> Bool'),
+    ('fn walk(l: List(Int)) { case l { [] -> 0  [h, ..t] -> h + step(t) } }\nfn step(l: List(Int)) { let again = walk  again(l) }\n', 'again =', 'fn(List(Int)) -> Int'),
 ]
 
 
@@ -104,6 +109,10 @@ def run_kernel(chk, tier, jobs, props):
         chk.add_run('dependency_order_query: one function whose body has %d identifier expressions (under-constrained database)' % nv, res, complete, {'identifiers': nv},
                     nontrivial_classes=lambda c: c.startswith('edges:') and c != 'edges:0')
         found += [v for v in res.violations if any(w.startswith(tuple(props)) for w in v['why'])]
+    res, complete = explore.explore(deporder.complete_factory, (), jobs=1)
+    chk.add_run('dependency_order_query: completeness - every identifier of the body that resolves to a function (callee, argument, let-bound reference; which ones resolve is symbolic) yields an edge', res, complete,
+                {'identifiers': 3}, nontrivial_classes=lambda c: c.startswith('edges:') and c != 'edges:0')
+    found += [v for v in res.violations if any(w.startswith(tuple(props)) for w in v['why'])]
     for na in (1, 2):
         res, complete = explore.explore(unifier.alias_factory, (na,), jobs=1)
         chk.add_run('make_ty_from_typeref over every alias graph of %d aliases: the resolver of the function being inferred survives the expansion' % na, res, complete, {'aliases': na},
